@@ -73,11 +73,25 @@ fn check_faithful(case: &str, k: usize, st: &Store, sers: &[(Handle, Result<Stri
             Err(_) => stats.bump("ser.err"),
             Ok(text) => {
                 stats.bump("ser.ok");
-                if !st.xot.is_document(root) || representable(&st.xot, root).is_some() { continue; }
-                let frag = !is_wf_document(&st.xot, root);
+                let is_doc = st.xot.is_document(root);
+                if !is_doc && !st.xot.is_element(root) { continue; }
+                // an element root is judged as the document it would be the only element of
+                let probe = if is_doc { root } else { root };
+                if is_doc { if representable(&st.xot, root).is_some() { continue; } }
+                else {
+                    // same character-level domain, checked on a throw-away document around a clone
+                    let mut tmp = st.xot.clone();
+                    let c = tmp.clone_node(root);
+                    let d = tmp.new_document();
+                    if tmp.append(d, c).is_err() || representable(&tmp, d).is_some() { continue; }
+                }
+                let frag = is_doc && !is_wf_document(&st.xot, root);
                 match parse_fresh(text, frag) {
                     Parsed::Ok { xot: x2, root: r2, .. } => {
-                        if let Some(why) = compare_exact(&st.xot, root, &x2, r2, true) {
+                        let why = if is_doc { compare_exact(&st.xot, probe, &x2, r2, true) } else {
+                            match x2.document_element(r2) { Ok(e2) => compare_exact(&st.xot, probe, &x2, e2, true), Err(_) => Some("no document element".into()) }
+                        };
+                        if let Some(why) = why {
                             out.fail(case, "written-name-means-something-else", &format!("step {}: root {} is written as {:?}, which reads back differently: {}", k, hs(*h), text, why));
                         }
                     }
@@ -113,7 +127,7 @@ pub fn main_for(pid: &str) {
                 (case.to_string(), crate::treeparse::parse_anodes(&tree_text), Some(parts.get(2).unwrap_or(&"").split(';').filter(|s| !s.is_empty()).map(parse_op).collect()))
             }
             None => {
-                let cfg = GenCfg { max_nodes: 18, max_depth: 5, doc_root: 80, fragment: 35, adjacent_text: false, empty_text: false, ..GenCfg::default() };
+                let cfg = GenCfg { max_nodes: 18, max_depth: 5, doc_root: 80, fragment: 35, adjacent_text: false, empty_text: false, xml_space: 15, ..GenCfg::default() };
                 let ntrees = 1 + r.below(2);
                 let mut v = vec![];
                 for _ in 0..ntrees {
